@@ -135,6 +135,87 @@ func ruleNilableIfaceFields(c *Ctx, rule string, pkgs ...string) {
 	factOf := func(r fieldRef) string {
 		return "nn:" + r.Field.Name() + "@" + r.Base.Name()
 	}
+	// paramGuarded: the module function h calls through its k-th parameter
+	// only after testing it non-nil (`func readAllLiteral(r io.Reader) { if r
+	// == nil { return … } … }`), so handing it a nil interface is harmless
+	guardCache := map[string]bool{}
+	var paramGuarded func(h *ssa.Function, k int, depth int) bool
+	paramGuarded = func(h *ssa.Function, k int, depth int) bool {
+		key := fmt.Sprintf("%p/%d", h, k)
+		if v, ok := guardCache[key]; ok {
+			return v
+		}
+		guardCache[key] = false
+		if h == nil || h.Blocks == nil || k >= len(h.Params) || !strings.HasPrefix(pkgPathOf(h), modPath) {
+			return false
+		}
+		prm := h.Params[k]
+		edge := func(f facts, b *ssa.BasicBlock, succ int) facts {
+			for _, a := range edgeAtoms(b, succ) {
+				if a.Nil == -1 && a.V == ssa.Value(prm) {
+					f = f.with("nn")
+				}
+			}
+			return f
+		}
+		flow := mustFlow(h, facts{}, nil, edge)
+		ok := true
+		var walk func(v ssa.Value, d int)
+		walk = func(v ssa.Value, d int) {
+			if v.Referrers() == nil {
+				return
+			}
+			for _, ref := range *v.Referrers() {
+				switch u := ref.(type) {
+				case ssa.CallInstruction:
+					com := u.Common()
+					f, reach := flow.at(u)
+					if !reach || f.has("nn") {
+						continue
+					}
+					if com.IsInvoke() && com.Value == v {
+						ok = false
+						continue
+					}
+					for ai, a := range com.Args {
+						if a != v {
+							continue
+						}
+						cal := staticCallee(u)
+						idx := ai
+						if depth > 0 && cal != nil && paramGuarded(cal, idx, depth-1) {
+							continue
+						}
+						ok = false
+					}
+				case *ssa.ChangeInterface:
+					if d > 0 {
+						walk(u, d-1)
+					}
+				case *ssa.MakeInterface:
+					if d > 0 {
+						walk(u, d-1)
+					}
+				case *ssa.TypeAssert:
+					if !u.CommaOk {
+						if f, reach := flow.at(u); reach && !f.has("nn") {
+							ok = false
+						}
+					}
+				case *ssa.Store, *ssa.MakeClosure, *ssa.Phi, *ssa.Return:
+					// escapes: not followed
+					if _, isRet := u.(*ssa.Return); !isRet {
+						if _, isBin := ref.(*ssa.BinOp); !isBin {
+							ok = false
+						}
+					}
+				}
+			}
+		}
+		walk(prm, 2)
+		guardCache[key] = ok
+		return ok
+	}
 	for _, fn := range funcs {
 		// uses
 		type use struct {
@@ -168,8 +249,11 @@ func ruleNilableIfaceFields(c *Ctx, rule string, pkgs ...string) {
 							uses = append(uses, use{u, r, "method " + com.Method.Name() + " invoked on it"})
 							continue
 						}
-						for _, a := range com.Args {
+						for ai, a := range com.Args {
 							if a == v {
+								if cal := staticCallee(u); cal != nil && paramGuarded(cal, ai, 2) {
+									break // the callee tests it itself
+								}
 								name := "a call"
 								if o := calleeObj(u); o != nil {
 									name = o.FullName()
